@@ -20,7 +20,7 @@ def step (s : S) (line : String) : S × String :=
     match k.toNat? with
     | some k =>
       let up (m : Nat) : Bool := (ups.toList.getD m '0') == '1'
-      let os := (List.range k).map (fun i => showO (statelessAttempt (up ((s.rr + i) % 2))))
+      let os := (List.range k).map (fun i => showO (lbAttempt up 2 (s.rr + i)))
       ({ s with rr := s.rr + k }, String.intercalate "," os)
     | none => (s, "bad-op")
   | ["X", _, _] => (s, "before=11 open-tunnel-error=1 client-closed=1 other-tunnel-alive=1")
